@@ -60,6 +60,7 @@ def run(tier, seed, only, jobs):
     from props.common import wrap as _wrap
     _wrap(U, "C05.GetSelectedOutputValue.forwards_the_table_cell", CV.unit_get_value)
     _wrap(U, "C05.GetSelectedOutputValue2.type_and_value_of_the_cell", CV.unit_get_value2)
+    _wrap(U, "C05.sections.headings_per_item==cells_per_item_on_every_path", CV.unit_sections_counts)
     _wrap(U, "C05.IPhreeqc_EndRow.every_user_punch_heading_gets_a_cell", CV.unit_iphreeqc_endrow)
     _wrap(U, "C05.punch_all.cells_follow_heading_order", CV.unit_punch_order)
     _wrap(U, "C05.rows.end_of_row_signalled_wherever_a_row_is_written", CV.unit_row_end_signalled)
